@@ -36,7 +36,8 @@ def scenario_ops(sc):
 
 
 QUERY = (['X.run', 'X.logops', 'X.nrec'] + [f'X.prog {t}' for t in
-         ['main'] + [f'seat{p}' for p in SEATS] + [f'client{p}' for p in SEATS]] + [f'X.stream {p}' for p in SEATS])
+         ['main'] + [f'seat{p}' for p in SEATS] + [f'client{p}' for p in SEATS]] + [f'X.stream {p}' for p in SEATS] +
+         [f'X.reactmodel {p}' for p in SEATS] + ['X.mainmodel'])
 
 
 def model_session(driver, sc):
@@ -141,7 +142,7 @@ def stream_messages(b):
     return msgs
 
 
-def compare(sc, r, model, want_streams=True, want_ops=True, want_log=True):
+def compare(sc, r, model, want_streams=True, want_ops=True, want_log=True, driver=None):
     """list of differences (dicts) between the run `r` and the model of scenario `sc`"""
     diffs = []
     if r.status != 'DONE':
@@ -187,7 +188,31 @@ def compare(sc, r, model, want_streams=True, want_ops=True, want_log=True):
                               'model': bytes.fromhex(exp[i]).decode('utf-8', 'replace') if i < len(exp) and exp[i] != '-' else (exp[i] if i < len(exp) else None),
                               'n_impl': len(got_body), 'n_model': len(exp)})
     if want_ops:
+        # the REACTIVE seat-thread model (Model/SeatThread.lean: control flow decided by the queue messages only) …
+        for p in SEATS:
+            # … agrees with the straight-line session model (a theorem; cross-checked here by evaluation) …
+            if model.get(f'X.reactmodel {p}') != 'same':
+                diffs.append({'what': 'thread-ops', 'thread': f'seat{p} (reactive model vs session model)',
+                              'model': (model.get(f'X.reactmodel {p}') or '')[:300]})
+        if model.get('X.mainmodel') != 'same':
+            diffs.append({'what': 'thread-ops', 'thread': 'main (reactive model vs session model)',
+                          'model': (model.get('X.mainmodel') or '')[:300]})
+        if driver is not None:
+            d = main_reactive_diff(sc, r, driver, model)
+            if d:
+                diffs.append(d)
+        react = reactive_lines(sc, r, driver) if driver is not None else {}
         toks = thread_tokens(r, r.qmap)
+        for p, line in react.items():
+            # … and, fed the messages the REAL main thread queued and the REAL client sent, yields the operations the REAL
+            # seat thread performed
+            got = sort_send_runs(toks.get('seat' + p, []))
+            exp = sort_send_runs([x for x in line.split(' ') if x])
+            if got != exp:
+                i = next((i for i, (a, b) in enumerate(zip(got, exp)) if a != b), min(len(got), len(exp)))
+                diffs.append({'what': 'thread-ops', 'thread': f'seat{p} (reactive model on the observed streams)', 'index': i,
+                              'impl': decode_tok(got[i]) if i < len(got) else None,
+                              'model': decode_tok(exp[i]) if i < len(exp) else None, 'n_impl': len(got), 'n_model': len(exp)})
         for t in ['main'] + [f'seat{p}' for p in SEATS] + [f'client{p}' for p in SEATS]:
             # consecutive sends of one thread commute (different channels) or are ordered per channel:
             # sort maximal runs of sends by channel (stable), so that reordering independent puts is no alarm
@@ -199,6 +224,60 @@ def compare(sc, r, model, want_streams=True, want_ops=True, want_log=True):
                               'impl': got[i] if i < len(got) else None, 'model': exp[i] if i < len(exp) else None,
                               'n_impl': len(got), 'n_model': len(exp)})
     return diffs
+
+
+def reactive_lines(sc, r, driver):
+    """X.react for every seat on the streams observed in the run: what main put on the seat's queue, what the client sent"""
+    inv = {v: k for k, v in r.qmap.items()}
+    ops = []
+    seats = []
+    by_client = {c[0]: c for c in r.conns}
+    for p in SEATS:
+        qlabel = inv.get('m2t' + p)
+        q = [pl for (k, o, pl) in r.ops.get('main', []) if k == 'put' and o == qlabel]
+        conn = by_client.get(f'client-{p}')
+        if conn is None or qlabel is None:
+            continue
+        s2c = stream_messages(conn[1])
+        c2s = stream_messages(conn[2])
+        if len(s2c) < 2 or len(c2s) < 3:
+            continue
+        teams = s2c[1]                      # "<Seat> <team> seated", then the Teams message
+        c = c2s[2:]                         # after the connection request and "ready for teams"
+        ops.append(f'X.react {p} {teams} {",".join(hx(m) for m in q) or "-"} {",".join(c) or "-"}')
+        seats.append(p)
+    if not ops:
+        return {}
+    out = driver.run(ops)
+    return dict(zip(seats, out))
+
+
+def main_reactive_diff(sc, r, driver, model):
+    """the reactive MAIN-thread model (Model/MainThread.lean: it parses what it receives, runs its own auction and play,
+    assembles the record) fed the messages the REAL seat threads put on main's queues must perform the operations the
+    REAL main thread performed and write the records found in the log"""
+    inv = {v: k for k, v in r.qmap.items()}
+    streams = []
+    for p in SEATS:
+        qlabel = inv.get('t2m' + p)
+        msgs = [pl for (k, o, pl) in r.ops.get('seat:client-' + p, []) if k == 'put' and o == qlabel]
+        streams.append(','.join(hx(m) for m in msgs) or '-')
+    ops = scenario_ops(sc)
+    line = driver.run(ops + ['X.mainreact ' + ' '.join(streams)])[-1]
+    if line == 'RAISES':
+        return {'what': 'thread-ops', 'thread': 'main (reactive model on the observed streams)', 'model': 'RAISES'}
+    acts, _, recs = line.partition(' || ')
+    exp = sort_send_runs([x for x in acts.split(' ') if x and not x.startswith('e:')])
+    got = sort_send_runs(thread_tokens(r, r.qmap).get('main', []))
+    if got != exp:
+        i = next((i for i, (a, b) in enumerate(zip(got, exp)) if a != b), min(len(got), len(exp)))
+        return {'what': 'thread-ops', 'thread': 'main (reactive model on the observed streams)', 'index': i,
+                'impl': decode_tok(got[i]) if i < len(got) else None, 'model': decode_tok(exp[i]) if i < len(exp) else None,
+                'n_impl': len(got), 'n_model': len(exp)}
+    if (recs.split(' ## ') if recs else []) != model['records']:
+        return {'what': 'thread-ops', 'thread': 'main (records of the reactive model vs session model)',
+                'model': recs[:300]}
+    return None
 
 
 def sort_send_runs(toks):
